@@ -501,6 +501,8 @@ func (c *Collection) Update(key string, exp Exp, callback sgbucket.UpdateFunc) (
 		casOut, err = c.WriteCas(key, exp, cas, raw, opt)
 		if err == nil {
 			break
+		} else if errors.As(err, &missingError) && cas != 0 {
+			continue // the version we read was deleted or purged in the meantime: that is a CAS conflict too
 		} else if _, ok := err.(sgbucket.CasMismatchErr); !ok {
 			return 0, err // fatal error
 		}
